@@ -35,11 +35,12 @@ SHRINK_LISTS = ["msgs"]
 STD_NOTIFS = ["notifications/initialized", "notifications/cancelled", "notifications/progress", "notifications/roots/list_changed",
               "notifications/message", "notifications/resources/updated", "notifications/resources/list_changed",
               "notifications/tools/list_changed", "notifications/prompts/list_changed"]
-CORE = ["initialize", "ping", "tools/list", "tools/call", "resources/list", "resources/read", "custom/ok", "custom/raises", "custom/slow"]
+CORE = ["initialize", "ping", "tools/list", "tools/call", "resources/list", "resources/read", "custom/ok", "custom/raises", "custom/slow",
+        "custom/raises_empty", "custom/raises_unprintable"]
 RANDOM_METHODS = ["", " ", "nope", "tools/call/extra", "rpc.internal", "TOOLS/LIST", "ünï/codé", "notifications/", "a" * 200, "tools\ncall"]
 IDS = [0, 1, -5, 2 ** 53 + 1, 10 ** 30, "", "abc", "0", "id with space", "ü", "x" * 100]
 BEHAV = ["ok_str", "ok_dict", "ok_list", "ok_none", "raise_value", "raise_key", "raise_runtime", "raise_type", "nonsense_obj", "nonsense_set",
-         "nonsense_badstr", "sleep_ok", "sleep_raise"]
+         "nonsense_badstr", "sleep_ok", "sleep_raise", "raise_empty", "raise_assert", "raise_notimpl", "raise_unprintable"]
 
 
 def _params_for(method, rng):
@@ -96,6 +97,11 @@ def simplify(scn):
             c = copy.deepcopy(scn); c["msgs"][i]["gap"] = 0; yield c
 
 
+class _Unprintable(Exception):
+    def __str__(self):
+        raise RuntimeError("this exception cannot be printed")
+
+
 class _BadStr:
     def __str__(self):
         raise RuntimeError("__str__ failed")
@@ -135,6 +141,18 @@ def execute(scn: dict) -> dict:
             if kind == "raise_type":
                 st["handler_faults"] += 1
                 raise TypeError("bad type")
+            if kind == "raise_empty":
+                st["handler_faults"] += 1
+                raise ValueError("")  # an exception without any text
+            if kind == "raise_assert":
+                st["handler_faults"] += 1
+                assert False
+            if kind == "raise_notimpl":
+                st["handler_faults"] += 1
+                raise NotImplementedError
+            if kind == "raise_unprintable":
+                st["handler_faults"] += 1
+                raise _Unprintable()
             if kind == "nonsense_obj":
                 st["nonsense"] += 1
                 return object()
@@ -177,6 +195,16 @@ def execute(scn: dict) -> dict:
             await behave("sleep_ok", 50)
             return ph.create_response(message.id, {"custom": "slow"}), None
 
+        async def custom_raises_empty(message, session_id):
+            st["handler_faults"] += 1
+            raise TimeoutError()
+
+        async def custom_raises_unprintable(message, session_id):
+            st["handler_faults"] += 1
+            raise _Unprintable()
+
+        ph.register_method("custom/raises_empty", custom_raises_empty)
+        ph.register_method("custom/raises_unprintable", custom_raises_unprintable)
         ph.register_method("custom/ok", custom_ok)
         ph.register_method("custom/raises", custom_raises)
         ph.register_method("custom/slow", custom_slow)
@@ -234,7 +262,7 @@ def execute(scn: dict) -> dict:
         out["probes"][k] = out["probes"].get(k, 0) + 1
 
     registered = {"initialize", "notifications/initialized", "ping", "tools/list", "tools/call", "resources/list", "resources/read",
-                  "custom/ok", "custom/raises", "custom/slow"}
+                  "custom/ok", "custom/raises", "custom/slow", "custom/raises_empty", "custom/raises_unprintable"}
     hist = []
     nontrivial = st["overlap"]
     for k, m in enumerate(scn["msgs"]):
@@ -297,7 +325,7 @@ def execute(scn: dict) -> dict:
             exp = {"result"}
             if method == "initialize" and not (m["params"] is None or isinstance(p.get("clientInfo", {}), dict)):
                 exp = {"result", -32602, -32603}
-        elif method == "custom/raises":
+        elif method in ("custom/raises", "custom/raises_empty", "custom/raises_unprintable"):
             exp = {-32603}
         elif method == "tools/call":
             name = p.get("name")
